@@ -987,6 +987,14 @@ class Fn:
                 and s[1][2][2] is None:
             # `if write!(buf, ..).is_err() { eprintln!(..) }`: writing to a String cannot fail; the statement is the write
             return self.stmts([("let", ("pwild",), None, s[1][1][1], None)] + rest, tl, env, ctx)
+        if k == "expr" and s[1][0] == "mcall" and self.spec.get("arg_builders"):
+            chain, cur = [], s[1]
+            while cur[0] == "mcall" and cur[2] == "arg" and len(cur[3]) == 1:
+                chain.append(cur[3][0])
+                cur = cur[1]
+            if chain and cur[0] == "path" and len(cur[1]) == 1 and cur[1][0] in env and cur[1][0] in self.spec["arg_builders"]:
+                v = cur[1][0]
+                return "let %s := %s ++ [%s] in %s" % (self.var(v), self.var(v), "; ".join(self.ex(a, env) for a in reversed(chain)), after(env))
         if k == "let" and s[1][0] == "pwild" and s[3] is not None and s[3][0] == "macro" and s[3][1] == "write" and self.spec.get("format_bytes") \
                 and len(s[3][2]) >= 3 and s[3][2][0][0] == "id" and s[3][2][1] == ("op", ",") and s[3][2][0][1] in env:
             tgt = s[3][2][0][1]
@@ -2176,6 +2184,44 @@ def functions():
         return "Definition g_pull_stream (ssh_ok : bool) : list teffect :=\n  %s." % text
     out.append(("pull_stream", "src/bin/copia/dir_sync.rs transfer_file_from_remote (its calls, in order)", None, t_pull_stream))
 
+    def t_connect():
+        src = read("src/bin/copia/hub.rs")
+        params, ret, body = R.find_fn(src, "connect", "HubClient")
+        if [n for n, _ in params] != ["target"]:
+            raise Unsupported("signature of HubClient::connect is %s" % params)
+        def rw(n):
+            if isinstance(n, tuple):
+                if len(n) == 4 and n[0] == "mcall" and n[1] == ("path", ["me"]) and n[2] == "send":
+                    return ("call", ("path", ["ME_SEND"]), [rw(a) for a in n[3]])
+                if len(n) == 3 and n[0] == "match" and n[1] == ("try", ("mcall", ("path", ["me"]), "recv", [])):
+                    return ("block", [("expr", ("call", ("path", ["ME_RECV"]), []), True)], ("match", ("path", ["REPLY"]), rw(n[2])))
+                if n == ("field", ("path", ["me"]), "w"):
+                    return ("path", ["UNIT"])
+                return tuple(rw(x) for x in n)
+            if isinstance(n, list):
+                return [rw(x) for x in n]
+            return n
+        stmts = []
+        for st in rw(body)[1]:
+            if st[0] == "expr" and st[1][0] == "mcall" and st[1][2] in ("stdin", "stdout"):
+                root = st[1]
+                while root[0] == "mcall":
+                    root = root[1]
+                if root == ("path", ["cmd"]):
+                    continue            # cmd.stdin(piped()).stdout(piped()): the two pipes the session runs over
+            stmts.append(st)
+        spec = dict(try_transparent=True, str_literals=True, arg_builders=("c",),
+                    let_conv={"w": "tt", "r": "tt", "me": "tt"}, consts={"UNIT": ("tt", "W"), "REPLY": ("reply", "Response"), "VERSION": ("WIRE_VERSION", "u32")},
+                    calls={"split_target": ("g_split_target {0}", "Option<(str,str)>"), "Command::new": ("[{0}]", "Vec<Arg>"), "std::env::current_exe": ("exe", "PathBuf")},
+                    effects={"super::wire::write_magic": "HWriteMagic (* {0} *)", "ME_SEND": "HSend {0}", "ME_RECV": "HRecv"},
+                    mcall_effects={"cmd.spawn": "HSpawn cmd"},
+                    structs={"Request::Hello": ("SHello", ["version"], ["u32"]), "Response::Hello": ("RHelloV", ["version"], ["u32"])},
+                    ok=lambda s_: "(effs, true)", errs=[(r"bad hub handshake", "(effs, false)")], prologue="let effs := [] in ")
+        fn = Fn(spec)
+        text = spec["prologue"] + fn.block(("block", stmts, rw(body)[2]), {"target": "Vec<char>"}, Ctx(val=(lambda x: x), ret=(lambda x: x), fall=None))
+        return "Definition g_connect (target exe : list Z) (reply : hreply) : list heff * bool :=\n  %s." % text
+    out.append(("client_connect", "src/bin/copia/hub.rs HubClient::connect", None, t_connect))
+
     def t_dvalidate():
         src = read("src/delta.rs")
         spec = dict(fields={("Delta", "ops"): ("(d_ops _ {0})", "Vec<DeltaOp>"), ("Delta", "basis_size"): ("(d_basis_size _ {0})", "u64")},
@@ -3013,6 +3059,7 @@ GROUPS = {
     "HubSync": ("", "hubsync", ["hub_sync"]),
     "ServeLoop": ("", "serveloop", ["serve"]),
     "CommitLock": ("", "commitlock", ["with_commit_lock", "pull_stream"]),
+    "HubConnect": ("Model.Targets Gen.TargetsGen", "hubconnect", ["client_connect"]),
     "HubWireClient": ("", "hubwireclient", ["client_put", "client_list"]),
     "BisyncSys": ("", "bisyncsys", ["copy_atomic"]),
     "ArchiveSave": ("Model.ArchiveSys", "archivesys", ["archive_save"]),
@@ -3236,6 +3283,10 @@ def main():
             body = (HEADER % (group, "")).replace(" .\n", ".\n") + ("\nSection WithHash.\nVariable D : Type.\nVariable Hh : list Z -> D.            (* BLAKE3 *)\n"
                      "Variable hex_of : D -> list Z.           (* its 64 hexadecimal digits *)\n"
                      "Variable canon : list Z -> list Z.        (* std::fs::canonicalize(p), or p itself when that fails *)\n\n" + "\n".join(texts) + "End WithHash.\n")
+        elif digest == "hubconnect":
+            body += ("\n(* the reply to the client's Hello, and what connect does in order *)\nInductive hreply := RHelloV (version : Z) | ROther.\n"
+                     "Inductive hreq := SHello (version : Z).\n"
+                     "Inductive heff := HSpawn (argv : list (list Z)) | HWriteMagic | HSend (r : hreq) | HRecv.\n\n" + "\n".join(texts))
         elif digest == "commitlock":
             body = (HEADER % (group, "")).replace(" .\n", ".\n") + ("\n(* what with_commit_lock does, in order *)\nInductive leffect := LOpenLockFile | LLockExclusive | LBody | LUnlock.\n"
                     "(* what transfer_file_from_remote does, in order *)\nInductive teffect := TSpawn | TCreateTruncate | TCopy | TFlush | TWait | TDone | TFail.\n\n" + "\n".join(texts))
